@@ -80,12 +80,55 @@ def run(rep, tier_, rng):
             rep.violation("clone and mp give different values for %s at the same precision" % name, {"fn": name, "x": x, "prec": prec, "mp": list(a._mpf_), "clone": list(b._mpf_)})
         if c.prec != prec or mp.prec != prec:
             rep.violation("precision of mp/clone changed by computing in another context", {"fn": name, "prec": prec})
+    # ownership sweep: after another context has evaluated the same call at a higher precision (filling every module-level
+    # cache), a clone and fp must still return numbers of their own types at their own precision, equal to mp's at that precision
+    import sweep
+    own = 0
+    extra3 = {"coulombc": lambda c: (lambda l, e: c.coulombc(l, e)), "coulombf3": lambda c: (lambda l, e: c.coulombf(l, e, 2.5)),
+              "coulombg3": lambda c: (lambda l, e: c.coulombg(l, e, 2.5)), "besseljzero": lambda c: (lambda v, m: c.besseljzero(abs(v), 1 + int(abs(m)) % 4)),
+              "besselyzero": lambda c: (lambda v, m: c.besselyzero(abs(v), 1 + int(abs(m)) % 4)), "hyp1f1_3": lambda c: (lambda a, z: c.hyp1f1(a, 1.75, z)),
+              "zetazero": None}
+    names = sweep.ONE_ARG + sweep.TWO_ARG + [k for k, v in extra3.items() if v]
+    per = 1 if tier_ == "quick" else 4
+    slow = {"primezeta", "siegelz", "siegeltheta", "riemannr", "kleinj", "mfrom", "qfrom", "eta", "superfac", "hyperfac", "barnesg", "lambertw"}
+    for name in names:
+        if tier_ == "quick" and name in slow:
+            continue
+        for _ in range(per):
+            mp.prec = 53
+            nargs = 1 if name in sweep.ONE_ARG else 2
+            raw = [rng.choice([0.5, 0.75, 1.5, 2.0, 2.25, 3.0, 0.125]) for _ in range(nargs)]
+            hi = mp.clone(); hi.prec = rng.choice([120, 200]); c = mp.clone(); c.prec = 53
+            def fn(ctx):
+                f = extra3[name](ctx) if name in extra3 else sweep.resolve(ctx, name)
+                return f(*[ctx.mpf(v) if ctx is not fp else v for v in raw])
+            try:
+                sweep.call_with_timeout(lambda: fn(hi), 20)
+                rc = sweep.call_with_timeout(lambda: fn(c), 20)
+                rm = sweep.call_with_timeout(lambda: fn(mp), 20)
+            except (sweep.CallTimeout,) + sweep.EXPECTED_ERRORS:
+                continue
+            own += 1
+            rp = {"fn": name, "args": raw, "hi_prec": hi.prec}
+            if isinstance(rc, (mp.mpf, mp.mpc)) or (hasattr(rc, "_mpf_") and type(rc) is not c.mpf) or (hasattr(rc, "_mpc_") and type(rc) is not c.mpc):
+                rep.violation("%s called on a clone returned a number owned by another context (%s)" % (name, type(rc).__module__ + "." + type(rc).__name__), rp)
+            elif hasattr(rc, "_mpf_") and hasattr(rm, "_mpf_") and rc._mpf_ != rm._mpf_:
+                rep.violation("%s on a clone differs from mp at the same precision after a higher-precision call in a third context" % name,
+                              dict(rp, clone=list(rc._mpf_), mp=list(rm._mpf_)))
+            elif hasattr(rc, "_mpc_") and hasattr(rm, "_mpc_") and rc._mpc_ != rm._mpc_:
+                rep.violation("%s on a clone differs from mp at the same precision after a higher-precision call in a third context" % name, rp)
+            try:
+                rf = sweep.call_with_timeout(lambda: fn(fp), 20)
+            except (sweep.CallTimeout, Exception):
+                continue
+            if hasattr(rf, "_mpf_") or hasattr(rf, "_mpc_") or hasattr(rf, "_mpi_"):
+                rep.violation("fp.%s returned a multiprecision number (%s) after another context filled a cache" % (name, type(rf).__name__), rp)
     mp.prec, iv.prec = mp0[0], iv0[0]
     rep.coverage = {
         "obligations": obligations, "discharged": discharged, "checker_cmd": " && ".join(cmds), "trusted_base": trusted,
-        "evaluations": steps + same, "distinct_nontrivial": len({tuple(o) for _, o in reqs}),
+        "evaluations": steps + same + own, "distinct_nontrivial": len({tuple(o) for _, o in reqs}),
         "rule": "random interleavings of prec/dps assignments, clones and evaluations over mp, iv, fp and up to 4 clones; the (prec, dps) of every context after each sequence compared with the extracted Coq store model; clone vs mp bitwise result equality with an unrelated context used in between",
-        "samples": samples, "traces_validated_against_impl": len(reqs), "clone_value_comparisons": same,
+        "samples": samples, "traces_validated_against_impl": len(reqs), "clone_value_comparisons": same, "ownership_sweep_calls": own,
     }
     rep.assumptions = ["module-level caches shared between contexts are covered by C17/C33"]
 
